@@ -63,8 +63,9 @@ type vc08Op struct {
 	Key     uint32   `json:"key"`
 	Clock   uint32   `json:"clock"`
 	Val     string   `json:"val,omitempty"`
-	Sus     bool     `json:"sus,omitempty"` // XOR reference check suspended (a leaf is known to be corrupted)
-	Dg      bool     `json:"dg,omitempty"`  // also observe Diagnostics()
+	Sus     bool     `json:"sus,omitempty"`  // XOR reference check suspended (a leaf is known to be corrupted)
+	Dg      bool     `json:"dg,omitempty"`   // also observe Diagnostics()
+	Put     int      `json:"put,omitempty"`  // store fault: the k-th Put (1-based) of the write transaction fails
 	Save    string   `json:"save,omitempty"` // a notifier's Save fails: "payload" (payload event) or "tx" (transaction event)
 	Xs      []uint32 `json:"xs"`
 	Is      []uint32 `json:"is"`
@@ -143,7 +144,37 @@ type vc08Call struct {
 	id     int
 	fail   string
 	cancel context.CancelFunc
-	hold   bool // hold this call's OnRollback functions until the store's `release` channel is closed
+	hold   bool   // hold this call's OnRollback functions until the store's `release` channel is closed
+	put    int    // fail the put-th Put of the write transaction (0 = none)
+	puts   int    // Puts seen so far
+	shelf  string // shelf of the failed Put (for the statistics)
+}
+
+var errVc08Put = errors.New("verif: injected store fault (Put)")
+
+// a write transaction whose shelf writers count the Puts of the call and fail the chosen one
+type vc08FaultTx struct {
+	stoabs.WriteTx
+	call *vc08Call
+}
+
+func (t *vc08FaultTx) GetShelfWriter(shelf string) stoabs.Writer {
+	return &vc08Writer{Writer: t.WriteTx.GetShelfWriter(shelf), call: t.call, shelf: shelf}
+}
+
+type vc08Writer struct {
+	stoabs.Writer
+	call  *vc08Call
+	shelf string
+}
+
+func (w *vc08Writer) Put(key stoabs.Key, value []byte) error {
+	w.call.puts++
+	if w.call.puts == w.call.put {
+		w.call.shelf = w.shelf
+		return errVc08Put
+	}
+	return w.Writer.Put(key, value)
 }
 
 var errVc08Injected = errors.New("verif: injected write failure")
@@ -183,6 +214,9 @@ func (v *vc08Store) Write(ctx context.Context, fn func(stoabs.WriteTx) error, op
 		opts = held
 	}
 	return v.KVStore.Write(ctx, func(tx stoabs.WriteTx) error {
+		if call.put > 0 {
+			tx = &vc08FaultTx{WriteTx: tx, call: call}
+		}
 		err := fn(tx)
 		v.mu.Lock()
 		v.order = append(v.order, call.id)
@@ -230,25 +264,26 @@ type vc08Known struct {
 }
 
 type vc08Run struct {
-	t        *testing.T
-	ops      *bufio.Writer
-	impl     *bufio.Writer
-	orc      *bufio.Writer
-	dir      string
-	histNo   int
-	inner    stoabs.KVStore
-	db       *vc08Store
-	st       *state
-	signer   nutsCrypto.MemoryJWTSigner
-	notif    *vc08Notifier
-	txs      map[int]*vc08Known
-	byRef    map[hash.SHA256Hash]*vc08Known
-	specs    map[int]*vc08Op // structural description of every transaction of the current history
-	rng      *rand.Rand
-	stats    map[string]int
-	opCount  int
-	maxClock uint32
-	pagesMax uint32
+	t          *testing.T
+	ops        *bufio.Writer
+	impl       *bufio.Writer
+	orc        *bufio.Writer
+	dir        string
+	histNo     int
+	inner      stoabs.KVStore
+	db         *vc08Store
+	st         *state
+	signer     nutsCrypto.MemoryJWTSigner
+	notif      *vc08Notifier
+	putShelves map[string]int // which shelf the injected Put faults hit
+	txs        map[int]*vc08Known
+	byRef      map[hash.SHA256Hash]*vc08Known
+	specs      map[int]*vc08Op // structural description of every transaction of the current history
+	rng        *rand.Rand
+	stats      map[string]int
+	opCount    int
+	maxClock   uint32
+	pagesMax   uint32
 }
 
 func (r *vc08Run) open() {
@@ -335,6 +370,8 @@ func vc08ErrClass(err error) string {
 		return "err:commit-failed"
 	case errors.Is(err, errVc08Save):
 		return "err:save-failed"
+	case errors.Is(err, errVc08Put):
+		return "err:put-failed"
 	case strings.Contains(err.Error(), "tx.PayloadHash does not match"):
 		return "err:payload-hash-mismatch"
 	}
@@ -354,7 +391,15 @@ func (r *vc08Run) doAddHold(op *vc08Op, id int, hold bool) string {
 	}
 	ctx, cancel := context.WithCancel(context.Background())
 	defer cancel()
-	ctx = context.WithValue(ctx, vc08CallKey{}, &vc08Call{id: id, fail: op.Fail, cancel: cancel, hold: hold})
+	call := &vc08Call{id: id, fail: op.Fail, cancel: cancel, hold: hold, put: op.Put}
+	ctx = context.WithValue(ctx, vc08CallKey{}, call)
+	if op.Put > 0 {
+		defer func() {
+			if call.shelf != "" {
+				r.putShelves[call.shelf]++
+			}
+		}()
+	}
 	if op.Save != "" {
 		r.notif.mu.Lock()
 		r.notif.fail = op.Save
@@ -671,6 +716,9 @@ func (r *vc08Run) emit(op *vc08Op, line, orc string) {
 	}
 	if op.Save != "" {
 		r.stats["add-save-fails:"+op.Save]++
+	}
+	if op.Put > 0 {
+		r.stats["add-put-fault"]++
 	}
 }
 
@@ -1034,6 +1082,28 @@ func (g *vc08Gen) history(label string, n, width int) {
 				continue
 			}
 			g.ops = append(g.ops, g.newTx(nil, 0))
+		case rare(3): // a store fault at the k-th Put of the write transaction (k up to beyond the last put), then the retry
+			op := g.valid(width)
+			f := *op
+			f.Payload = g.payloadMode()
+			f.Put = 1 + g.rng.Intn(10)
+			g.ops = append(g.ops, &f)
+			total := 6 // clock index, transaction, lc_high, tx_num, IBLT leaf, XOR leaf
+			if f.Payload != "nil" {
+				total += 2 // payload, "payload event saved" mark
+			}
+			if op.Clk > g.maxClock || op.Clk == 0 {
+				total++ // head_ref
+			}
+			if f.Put > total {
+				g.commit(op) // no such put: the transaction was admitted
+			} else if g.rng.Intn(5) > 0 {
+				g.ops = append(g.ops, op)
+				g.commit(op)
+			}
+			if g.rng.Intn(4) == 0 {
+				g.ops = append(g.ops, &vc08Op{Op: "restart", fullObs: true})
+			}
 		case rare(2): // a failing Add racing with the next Add (rollback handler runs after the write lock is released)
 			if len(g.added) == 0 {
 				continue
@@ -1189,7 +1259,8 @@ func (g *vc08Gen) exhaustive(label string, n, width int) {
 		g.commit(op)
 	}
 	for pos := 0; pos < n; pos++ {
-		for _, fault := range []string{"fn", "ctx", "restart", "bad-payload", "save-payload", "save-tx", "race"} {
+		for _, fault := range []string{"fn", "ctx", "restart", "bad-payload", "save-payload", "save-tx", "race",
+			"put1", "put2", "put3", "put4", "put5", "put6", "put7", "put8", "put9"} {
 			g.ops = append(g.ops, &vc08Op{Op: "new", Hist: fmt.Sprintf("%s-pos%d-%s", label, pos, fault)})
 			for i, b := range base {
 				op := &vc08Op{Op: "add", I: i, Pi: b.pi, Clk: b.clk, Payload: "ok", Fail: "none"}
@@ -1203,6 +1274,11 @@ func (g *vc08Gen) exhaustive(label string, n, width int) {
 						f := *op
 						f.Payload = "bad"
 						g.ops = append(g.ops, &f)
+					case "put1", "put2", "put3", "put4", "put5", "put6", "put7", "put8", "put9":
+						// payload given: payload, payload-event mark, clock index, tx, lc_high, [head_ref], tx_num, IBLT leaf, XOR leaf
+						f := *op
+						f.Put = int(fault[3] - '0')
+						g.ops = append(g.ops, &f) // (a 9th put exists only when the head changes; else this call succeeds)
 					case "race":
 						f := *op
 						f.Fail = "fn"
@@ -1309,13 +1385,16 @@ func TestVerifC08(t *testing.T) {
 	_ = key.Set(jwk.KeyIDKey, "k")
 	rng := rand.New(rand.NewSource(seed*104729 + 8))
 	r := &vc08Run{t: t, ops: bufio.NewWriterSize(of, 1<<20), impl: bufio.NewWriterSize(imf, 1<<20), orc: bufio.NewWriter(orf),
-		dir: filepath.Join(out, "db"), signer: nutsCrypto.MemoryJWTSigner{Key: key}, rng: rng, stats: map[string]int{}}
+		dir: filepath.Join(out, "db"), signer: nutsCrypto.MemoryJWTSigner{Key: key}, rng: rng, stats: map[string]int{}, putShelves: map[string]int{}}
 	defer r.ops.Flush()
 	defer r.impl.Flush()
 	defer r.orc.Flush()
 	defer func() {
 		r.close()
 		os.RemoveAll(r.dir)
+		for k, v := range r.putShelves {
+			r.stats["put-fault-on:"+k] = v
+		}
 		sb, _ := json.Marshal(r.stats)
 		os.WriteFile(filepath.Join(out, "stats.json"), sb, 0o644)
 	}()
